@@ -177,6 +177,25 @@ func (w *c07World) line(c *Ctx, in string) {
 	c.Emit("%s => %s %s", in, res, w.changes())
 }
 
+// composeName builds a file name from parts: every mix of separators, dot components, prefixes of the loot
+// directories' own names, embedded and trailing NULs, drive / UNC prefixes, long and empty components.
+func composeName(r *gen.Rng) string {
+	comps := []string{"..", "..", ".", "Download", "Download_x", "Downloadx", "Screenshots", "a", "b c", "ü", "", "...", "..\x00", "\x00..", "x\x00", "..\x00x",
+		"Console_00000a01.log", "00000a02", strings.Repeat("L", 200), "notes.txt", "..  ", " .."}
+	seps := []string{"\\", "/", "//", "\\/", "\\\\"}
+	n := 1 + r.Intn(5)
+	var b strings.Builder
+	b.WriteString(gen.Pick(r, []string{"", "", "", "C:\\", "/", "\\\\srv\\", "c:", "\\"}))
+	for i := 0; i < n; i++ {
+		if i > 0 {
+			b.WriteString(gen.Pick(r, seps))
+		}
+		b.WriteString(gen.Pick(r, comps))
+	}
+	b.WriteString(gen.Pick(r, []string{"", "", "", "\x00", "\\", "/", ".txt", "\x00.txt"}))
+	return b.String()
+}
+
 func runC07(c *Ctx) {
 	w := &c07World{}
 	defer func() {
@@ -211,6 +230,8 @@ func runC07(c *Ctx) {
 			name := gen.Pick(r, names)
 			if r.Chance(1, 8) {
 				name = genName(r)
+			} else if r.Chance(1, 2) {
+				name = composeName(r)
 			}
 			if r.Chance(1, 12) { // the same remote file fetched twice, one transfer after the other
 				nm := hx([]byte(gen.Pick(r, []string{"notes.txt", "C:\\Users\\bob\\notes.txt", "a/b/c.bin"})))
